@@ -11,6 +11,7 @@ def check(ctx):
     scaling.continuity_offset_guard(ctx, 'C19-R5')
     scaling.step_continuity(ctx, 'C19-R6')
     scaling.given_parameters_honoured(ctx, 'C19-R7')
+    scaling.routine_defaults_and_dispatch(ctx, 'C19-R8')
     ctx.undecided += ['step scaling with more than 5 step edges (the property quantifies over 0..4; R6 instantiates 0..5)',
                       'that min-max scaling lands in [0, 1] numerically',
                       'floating-point round-trip error of undo(do(x))']
